@@ -136,6 +136,8 @@ Next ==
           /\ hf' = IF e.ev = "Reset" THEN FALSE ELSE hf \/ IsFault(e)
           /\ viol' = viol \cup {r \in {[f |-> f, line |-> l, run |-> e.run, ev |-> e.ev, faulted |-> e.faulted, af |-> (hf \/ IsFault(e)),
                                  taint |-> tn, adm |-> at, foreign |-> e.cfg.foreign,
+                                 \* the Job became finished with the result AdmissionError (a task was refused for good: adm) while other tasks of it are alive
+                                 admres |-> (f = "C10_NoLiveAtFinish" /\ s.job.result = "AdmissionError"),
                                  \* the Job was complete for the creating pass only through tasks that exist in its Pod cache but are not recorded in the cached status
                                  unrec |-> \/ (f = "C08_Gates" /\ ps.j.ex /\ DecidedView(e.cfg, ps) /\ ~DecidedViewRec(e.cfg, ps))
                                            \* ... or the Job left while only tasks it never recorded still exist
